@@ -115,6 +115,8 @@ def make_reps(n, cols, with_circuit=True, extra_circuit=None):
         'TruthTable(str)': TruthTable([''.join('1' if b else '0' for b in row) for row in table]),
         'PyFunction': PyFunction(f, input_size=n),
         'PyFunction.from_positional': PyFunction.from_positional(fpos),
+        # a callable may answer with any sequence of bools
+        'PyFunction(tuple)': PyFunction(lambda args: tuple(f(args)), input_size=n),
     }
     if with_circuit:
         reps['Circuit(dnf)'] = build.build(dnf_netlist(n, cols))
